@@ -397,10 +397,14 @@ def update_id_kinds(R):
         d.add_component_link(ParsedComponentLink(ComponentID('w'), ParsedCommand('{a} * 2', {'a': d.id['a']})))
         d.add_component_link(ParsedComponentLink(ComponentID('z'), ParsedCommand('{w} + {b}', {'w': d.id['w'], 'b': d.id['b']})))
 
+    def same_operand_twice(d):
+        d['w'] = d.id['a'] * d.id['a']
+        d['z'] = d.id['b'] + (d.id['a'] ** d.id['a']) / 2 + d.id['w']
+
     def arithmetic_nested(d):
         d['w'] = d.id['a'] * 2
         d['z'] = d.id['w'] + d.id['b']
-    for kname, mk in (('arithmetic', arithmetic), ('function', function), ('parsed', parsed), ('parsed-nested', parsed_nested), ('arithmetic-nested', arithmetic_nested)):
+    for kname, mk in (('arithmetic', arithmetic), ('function', function), ('parsed', parsed), ('parsed-nested', parsed_nested), ('arithmetic-nested', arithmetic_nested), ('same-operand-twice', same_operand_twice)):
         for victim in ('a', 'b'):
             d = mk_data()
             mk(d)
